@@ -15,7 +15,7 @@ TYPES = ["int", "float", "bool", "str", "qstr", "path", "key", "words", "strings
 SOUP = ["a", "b", "s", "t", "x", "=", "=", "{", "}", ";", "#", "# c", "!", "!a", ".help", ".type", ".optional",
         ".multiple", ".expert_level", ".foo", "!.help", "\\", "\\\n", "\n", "\n", " ", "  ", "\t", "'", '"', "'''", '"""',
         "'q'", '"q r"', "1", "2.5", "True", "no", "None", "Auto", "int", "$a", "$(a.b)", "*x", "x+y",
-        "#phil", "#phil __OFF__", "#phil __ON__", "#phil __END__", "__ON__", "include", "file", "a.b", ".", "..", "a.", "\\\\", "\\'", "\\\"", "é", " ", "\xa0"]
+        "%", "%s", "a%b", "#phil", "#phil __OFF__", "#phil __ON__", "#phil __END__", "__ON__", "include", "file", "a.b", ".", "..", "a.", "\\\\", "\\'", "\\\"", "é", " ", "\xa0"]
 
 
 def soup(rng, n=None):
